@@ -413,6 +413,42 @@ func H_C16_static() {
 	vCover("static")
 }
 
+// H_C16_pools: the identifier pools the plug-in builds at start-up
+// (initMetersPools, initAllCounters, initTunnelPeerIDs, initApplicationIDs)
+// only hold values that are valid for the pipeline: meter and counter cell
+// indices inside the arrays the P4Info declares, tunnel-peer and application
+// ids inside the bit width of the fields that carry them and never the
+// reserved values. The membership question is asked for an arbitrary probe.
+func H_C16_pools() {
+	cells := int64(4 + 2*vChoose("cells", 3)) // declared size of the meter / counter arrays: 4, 6, 8
+	env := vNewUP4(cells, 0, 0, nil)
+	u := env.up4
+	x := vU32("probe")
+	vAssert("app-meter-pool-inside-array", vImplies(u.appMeterCellIDsPool.Contains(x), uint64(x) < uint64(cells)))
+	vAssert("session-meter-pool-inside-array", vImplies(u.sessMeterCellIDsPool.Contains(x), uint64(x) < uint64(cells)))
+	vAssert("meter-pools-not-larger-than-array", u.appMeterCellIDsPool.Cardinality() <= int(cells) && u.sessMeterCellIDsPool.Cardinality() <= int(cells))
+	y := vU64("probe64")
+	for k := range u.counters {
+		vAssert("counter-pool-inside-array", vImplies(u.counters[k].counterIDsPool.Contains(y), y < uint64(cells)))
+		vAssert("counter-pool-not-larger-than-array", u.counters[k].counterIDsPool.Cardinality() <= int(cells))
+	}
+	// tunnel_peer_id and app_id are 8-bit fields; 0 is reserved for both, 1 is the dbuf peer
+	seenT := map[uint8]bool{}
+	for _, id := range u.tunnelPeerIDsPool {
+		vAssert("tunnel-peer-id-not-reserved", id >= 2)
+		vAssert("tunnel-peer-id-unique-in-pool", !seenT[id])
+		seenT[id] = true
+	}
+	seenA := map[uint8]bool{}
+	for _, id := range u.applicationIDsPool {
+		vAssert("application-id-not-reserved", id >= 1)
+		vAssert("application-id-unique-in-pool", !seenA[id])
+		seenA[id] = true
+	}
+	vObserve("pools", u.appMeterCellIDsPool.Cardinality(), u.sessMeterCellIDsPool.Cardinality(), len(u.tunnelPeerIDsPool), len(u.applicationIDsPool))
+	vCover("pools")
+}
+
 // H_C16_builders: every entry builder of the translator on arbitrary
 // arguments (the values reaching them in the plug-in are a subset).
 func H_C16_builders() {
